@@ -10,8 +10,12 @@ Decides:
   c. the clone shortcut is only taken when every requested root is a root of
      the original; configured imports, packages and the node-specifier flag
      are carried over.
+  w. the walk that feeds the segment (shared with C15/C02): enqueue-once
+     discipline, edge selection per kind/option, types-only substitution only
+     for a resolved types dependency, every redirect hop yielded.
 """
 from .lib import *
+from . import c15
 
 EXPLANATION = "Field provenance of the WalkOptions literal in ModuleGraph::segment (T4), arm table of the copy loop (T8), guard of the clone shortcut (T5)."
 NOT_DECIDED = "equality with a direct build of the roots"
@@ -89,3 +93,11 @@ def run(F, R, tier):
                 ok = len(ps) == 1 and peel_value(ps[0]["args"][0]).get("lid") in binds
     R.ob("C18-b", "the walk that feeds the segment yields every hop of a redirect chain", ok,
          "the walker jumps from a redirect entry to something other than the redirect's own target: hops in between are never yielded, so the segment loses their redirects", nx["file"])
+
+    # ---------------- C18-w ------------------------------------------------
+    # the segment is exactly what the walk yields, so the walk's own selection
+    # rules (which edges per kind, types-only substitution, enqueue-once) are
+    # necessary conditions of this property too
+    wb = [b for b in F.bodies if (b.get("self_adt") == c15.IT) and not b.get("derived")]
+    c15.walker_enqueue(F, R, wb, tag="C18-w", pid="C18")
+    c15.walker_selection(F, R, wb, tag="C18-w")
